@@ -134,6 +134,21 @@ fn case_date_days(day: i64, sub: bool, n: u32, acc: &mut Acc) {
 }
 
 /// operators: 0 DateTime+Duration 1 DateTime-Duration 2 DateTime+Time 3 DateTime-Time 4 Date+Duration 5 Date-Duration
+/// the compound-assignment form of an operator must do exactly what the operator does
+fn same_as_assign<T: std::fmt::Debug>(op: &str, case: &Value, plain: &Out<T>, assigned: &Out<T>, acc: &mut Acc) {
+    acc.transitions += 1;
+    let same = match (plain, assigned) {
+        (Out::Val(a), Out::Val(b)) => format!("{:?}", a) == format!("{:?}", b),
+        (Out::Panic(_), Out::Panic(_)) => true,
+        _ => false,
+    };
+    if same {
+        acc.branch("assign-form-agrees");
+    } else {
+        acc.violation(op, "assign-form-differs-from-operator", case.clone(), plain.show(), assigned.show());
+    }
+}
+
 fn case_operator(day: i64, nod: u64, off: i32, which: u8, secs: u64, sub_ns: u32, acc: &mut Acc) {
     let instant = ins::join(day, nod);
     let case = json!({"kind": "operator", "day": day, "nod": nod.to_string(), "off": off, "which": which, "secs": secs.to_string(), "sub_ns": sub_ns});
@@ -150,6 +165,16 @@ fn case_operator(day: i64, nod: u64, off: i32, which: u8, secs: u64, sub_ns: u32
             let r = if which == 0 { instant + dur_ns } else { instant - dur_ns };
             let exp = ins::representable(r).then_some(r);
             let got = call(|| if which == 0 { dt + dur } else { dt - dur });
+            let assigned = call(|| {
+                let mut x = dt;
+                if which == 0 {
+                    x += dur;
+                } else {
+                    x -= dur;
+                }
+                x
+            });
+            same_as_assign(if which == 0 { "DateTime += Duration" } else { "DateTime -= Duration" }, &case, &got, &assigned, acc);
             let cls = match exp {
                 None => "out-of-range",
                 Some(e) if e < 0 => "result-before-0001-01-01",
@@ -171,6 +196,16 @@ fn case_operator(day: i64, nod: u64, off: i32, which: u8, secs: u64, sub_ns: u32
             let r = if which == 2 { instant + dur_ns } else { instant - dur_ns };
             let exp = ins::representable(r).then_some(r);
             let got = call(|| if which == 2 { dt + t } else { dt - t });
+            let assigned = call(|| {
+                let mut x = dt;
+                if which == 2 {
+                    x += t;
+                } else {
+                    x -= t;
+                }
+                x
+            });
+            same_as_assign(if which == 2 { "DateTime += Time" } else { "DateTime -= Time" }, &case, &got, &assigned, acc);
             let cls = match exp {
                 None => "out-of-range",
                 Some(e) if e < 0 => "result-before-0001-01-01",
@@ -189,6 +224,16 @@ fn case_operator(day: i64, nod: u64, off: i32, which: u8, secs: u64, sub_ns: u32
             let exp = (cal::MIN_DAY as i128..=cal::MAX_DAY as i128).contains(&r).then_some(r as i64);
             let d = Date::from_timestamp((day - cal::DAYS_TO_1970) * 86_400);
             let got = call(|| date_day(&if which == 4 { d + dur } else { d - dur }));
+            let assigned = call(|| {
+                let mut x = d;
+                if which == 4 {
+                    x += dur;
+                } else {
+                    x -= dur;
+                }
+                date_day(&x)
+            });
+            same_as_assign(if which == 4 { "Date += Duration" } else { "Date -= Duration" }, &case, &got, &assigned, acc);
             let op = if which == 4 { "Date + Duration" } else { "Date - Duration" };
             match (exp, &got) {
                 (Some(e), Out::Val(g)) if *g == e => acc.branch("moved"),
